@@ -1,7 +1,7 @@
 /-
 Pipe life model: which steps touch the wire log and the calls table.
 -/
-import Rv.Lemmas.PipeLifeSafe
+import Rv.Lemmas.PipeLifeCount
 namespace Rv.PipeLife
 
 theorem deliver_wire (o : Owner) (r : Res) (s : St) : (deliver o r s).wire = s.wire := by
@@ -180,160 +180,5 @@ theorem wire_only_live {fix : Bool} {s s' : St} {l : Label} (h : step fix s l = 
         exact Or.inr (slotW_pos hcnt)
     | bgPing => exact absurd hi hn
     | closePing => exact absurd hi hn
-
-
-theorem deliver_state (o : Owner) (r : Res) (s : St) : (deliver o r s).state = s.state :=
-  congrArg Scal.state (scal_deliver o r s)
-
-theorem deferDeliver_state (s : St) : (deferDeliver s).state = s.state :=
-  congrArg Scal.state (scal_deferDeliver s)
-
-theorem ge2_startBg {s : St} (h : 2 ≤ s.state) : 2 ≤ (startBg s).state := by
-  have : (startBg s).state = bgState s.state := by unfold startBg; split <;> rfl
-  rw [this]; unfold bgState; split <;> omega
-
-theorem ge2_exitConn {w : Why} {s : St} (h : 2 ≤ s.state) : 2 ≤ (exitConn w s).state := by
-  show 2 ≤ if s.state = 1 then 2 else s.state
-  split <;> omega
-
-theorem ge2_casSt {s : St} (h : 2 ≤ s.state) : 2 ≤ (casSt s).state := by
-  show 2 ≤ if isStopping s.state then 2 else s.state
-  split <;> omega
-
-set_option hygiene false in
-macro "stateP" : tactic =>
-  `(tactic| (crunch h <;> first | exact h2 | exact ge2_startBg h2 | exact ge2_exitConn h2 | exact ge2_exitConn (w := .broken) (s := s) h2 | exact ge2_startBg (ge2_casSt h2) | exact ge2_casSt h2 | (rw [deliver_state]; exact h2)))
-
-/-- `state >= 2` is never left -/
-theorem state_ge2_stable {fix : Bool} {s s' : St} {l : Label} (h : step fix s l = some s') (h2 : 2 ≤ s.state) :
-    2 ≤ s'.state := by
-  cases l <;> simp only [step] at h
-  case enter i => unfold enter at h; stateP
-  case decide i => unfold decide at h; stateP
-  case put i => unfold put at h; stateP
-  case putFail i => unfold putFail at h; stateP
-  case syncOk i => unfold syncOk at h; stateP
-  case syncErr i => unfold syncErr at h; stateP
-  case leave i => unfold leave at h; stateP
-  case abort i => unfold abort at h; stateP
-  case cancel i => unfold cancel at h; stateP
-  case connBreak => unfold connBreak at h; stateP
-  case pingFail => unfold pingFail at h; stateP
-  case wTake => unfold wTake at h; stateP
-  case wFlush => unfold wFlush at h; stateP
-  case rFetch => unfold rFetch at h; stateP
-  case rDeliver => unfold rDeliver at h; stateP
-  case rErr =>
-    unfold rErr at h; crunch h
-    exact ge2_exitConn (w := .broken) (s := deferDeliver s) (by rw [deferDeliver_state]; exact h2)
-  case tdSpawn => unfold tdSpawn at h; stateP
-  case bgPingPut => unfold bgPingPut at h; stateP
-  case tdIter => unfold tdIter at h; stateP
-  case tdClose => unfold tdClose at h; crunch h; show 2 ≤ 4; omega
-  case closeEnter w => unfold closeEnter at h; stateP
-  case closeCas => unfold closeCas at h; stateP
-  case closePing => unfold closePing at h; stateP
-  case closeGot => unfold closeGot at h; stateP
-  case closeGrace => unfold closeGrace at h; stateP
-  case closeTail => unfold closeTail at h; stateP
-
-
-/-! ### the trigger and the background goroutine are never undone -/
-
-theorem deliver_connUp (o : Owner) (r : Res) (s : St) : (deliver o r s).connUp = s.connUp :=
-  congrArg Scal.connUp (scal_deliver o r s)
-
-theorem deliver_close (o : Owner) (r : Res) (s : St) : (deliver o r s).close = s.close :=
-  congrArg Scal.close (scal_deliver o r s)
-
-theorem startBg_td_ne_off (s : St) : (startBg s).td ≠ .off := by
-  unfold startBg; split
-  · simp
-  · rename_i h; simpa using h
-
-theorem startBg_td_of_ne {s : St} (h : s.td ≠ .off) : (startBg s).td = s.td := by
-  unfold startBg; split
-  · rename_i h1; exact absurd h1 h
-  · rfl
-
-/-- `connUp = false`, `close ≠ idle` and `td ≠ off` are stable -/
-structure Latched (s : St) (c k t : Bool) : Prop where
-  c : c = true → s.connUp = false
-  k : k = true → s.close ≠ .idle
-  t : t = true → s.td ≠ .off
-
-theorem latched_of {s s' : St} {c k t : Bool} (h : Latched s c k t) (hc : s'.connUp = s.connUp)
-    (hk : s'.close = s.close) (ht : s'.td = s.td) : Latched s' c k t :=
-  ⟨fun x => by rw [hc]; exact h.c x, fun x => by rw [hk]; exact h.k x, fun x => by rw [ht]; exact h.t x⟩
-
-theorem latched_startBg {s : St} {c k t : Bool} (h : Latched s c k t) : Latched (startBg s) c k t :=
-  ⟨fun hc => by rw [startBg_connUp]; exact h.c hc, fun hk => by rw [startBg_close]; exact h.k hk,
-   fun _ => startBg_td_ne_off s⟩
-
-theorem latched_deliver {s : St} {c k t : Bool} (o : Owner) (r : Res) (h : Latched s c k t) :
-    Latched (deliver o r s) c k t :=
-  ⟨fun hc => by rw [deliver_connUp]; exact h.c hc, fun hk => by rw [deliver_close]; exact h.k hk,
-   fun ht => by rw [deliver_td]; exact h.t ht⟩
-
-set_option hygiene false in
-macro "latchP" : tactic =>
-  `(tactic| (crunch h <;> first | exact latched_of hl rfl rfl rfl | exact latched_of (latched_startBg hl) rfl rfl rfl | exact latched_of (latched_deliver _ _ hl) rfl rfl rfl))
-
-theorem latched_step {fix : Bool} {s s' : St} {l : Label} {c k t : Bool} (h : step fix s l = some s')
-    (hl : Latched s c k t) : Latched s' c k t := by
-  cases l <;> simp only [step] at h
-  case enter i => unfold enter at h; latchP
-  case decide i =>
-    unfold decide at h; crunch h
-    · exact latched_of hl rfl rfl rfl
-    · exact latched_of hl rfl rfl rfl
-    · exact latched_of (latched_startBg hl) rfl rfl rfl
-    · exact latched_of hl rfl rfl rfl
-    · exact latched_of hl rfl rfl rfl
-  case put i => unfold put at h; latchP
-  case putFail i => unfold putFail at h; latchP
-  case syncOk i => unfold syncOk at h; latchP
-  case syncErr i =>
-    unfold syncErr at h; crunch h <;>
-      exact latched_of (latched_startBg (s := { s with err := latch .broken s.err, connUp := false })
-        ⟨fun _ => rfl, hl.k, hl.t⟩) rfl rfl rfl
-  case leave i =>
-    unfold leave at h; crunch h
-    · exact latched_startBg (s := leaveSt _ _ s) (latched_of hl rfl rfl rfl)
-    · exact latched_of hl rfl rfl rfl
-  case abort i => unfold abort at h; latchP
-  case cancel i => unfold cancel at h; latchP
-  case connBreak => unfold connBreak at h; crunch h; exact ⟨fun _ => rfl, hl.k, hl.t⟩
-  case pingFail => unfold pingFail at h; crunch h; exact ⟨fun _ => rfl, hl.k, hl.t⟩
-  case wTake => unfold wTake at h; latchP
-  case wFlush =>
-    unfold wFlush at h; crunch h
-    · exact latched_of hl rfl rfl rfl
-    · exact ⟨fun _ => rfl, hl.k, hl.t⟩
-  case rFetch => unfold rFetch at h; latchP
-  case rDeliver => unfold rDeliver at h; crunch h; exact latched_deliver _ _ (s := { s with inflight := none }) (latched_of hl rfl rfl rfl)
-  case rErr =>
-    unfold rErr at h; crunch h
-    refine ⟨fun _ => rfl, fun hk => ?_, fun _ => by simp⟩
-    show (deferDeliver s).close ≠ .idle
-    have : (deferDeliver s).close = s.close := congrArg Scal.close (scal_deferDeliver s)
-    rw [this]; exact hl.k hk
-  case tdSpawn => unfold tdSpawn at h; crunch h <;> exact ⟨hl.c, hl.k, fun _ => by simp⟩
-  case bgPingPut => unfold bgPingPut at h; latchP
-  case tdIter =>
-    unfold tdIter at h; crunch h
-    · exact ⟨hl.c, hl.k, fun _ => by simp⟩
-    · exact latched_deliver _ _ (s := { s with td := .draining _, queue := _, rcnt := _ }) ⟨hl.c, hl.k, fun _ => by simp⟩
-    · exact ⟨hl.c, hl.k, fun _ => by simp⟩
-  case tdClose => unfold tdClose at h; crunch h; exact ⟨hl.c, hl.k, fun _ => by simp⟩
-  case closeEnter w => unfold closeEnter at h; crunch h; exact ⟨hl.c, fun _ => by simp, hl.t⟩
-  case closeCas =>
-    unfold closeCas at h; crunch h
-    · exact latched_startBg (s := casSt s) ⟨hl.c, fun _ => by simp [casSt], hl.t⟩
-    · exact ⟨hl.c, fun _ => by simp [casSt], hl.t⟩
-  case closePing => unfold closePing at h; crunch h <;> exact ⟨hl.c, fun _ => by simp, hl.t⟩
-  case closeGot => unfold closeGot at h; crunch h; exact ⟨hl.c, fun _ => by simp, hl.t⟩
-  case closeGrace => unfold closeGrace at h; crunch h; exact ⟨hl.c, fun _ => by simp, hl.t⟩
-  case closeTail => unfold closeTail at h; crunch h; exact ⟨fun _ => rfl, fun _ => by simp, hl.t⟩
 
 end Rv.PipeLife
